@@ -14,6 +14,7 @@ import (
 	"fmt"
 	"io"
 	"net/url"
+	"os"
 	"sort"
 	"strings"
 	"sync"
@@ -35,6 +36,7 @@ import (
 	g "verif/harness/internal/gallina"
 	"verif/harness/internal/hcommon"
 	"verif/harness/internal/rng"
+	"verif/harness/internal/uploadorder"
 )
 
 const universe = 12
@@ -509,19 +511,30 @@ func (area) Execute(raw json.RawMessage) (term string, info *hcommon.Info, err e
 	// The decorator order of cmd/bb_worker/main.go, restricted to the
 	// decorators that touch storage (the extractor of checks/C09.py
 	// compares this order with main.go on every run).
-	executor := builder.NewCachingBuildExecutor(
-		builder.NewStorageFlushingBuildExecutor(local, func(ctx context.Context) error {
-			if st.script.Cancel == "flush" {
-				st.cancel()
-			}
-			err := flush(ctx)
-			flushObs = observedCall{ret: int(status.Code(err)), calls: local.takeLog()}
-			if st.script.Cancel == "final" {
-				st.cancel()
-			}
-			return err
-		}),
-		fakeCAS{s: st}, fakeAC{s: st}, browserURL)
+	flushFn := func(ctx context.Context) error {
+		if st.script.Cancel == "flush" {
+			st.cancel()
+		}
+		err := flush(ctx)
+		flushObs = observedCall{ret: int(status.Code(err)), calls: local.takeLog()}
+		if st.script.Cancel == "final" {
+			st.cancel()
+		}
+		return err
+	}
+	var executor builder.BuildExecutor
+	if cachingInsideFlushing() {
+		// main.go of the tree under verification wraps the caching executor
+		// in the flushing one: compose the real decorators the same way, so
+		// that what this order does is observed (the model keeps the order
+		// the theorems assume)
+		executor = builder.NewStorageFlushingBuildExecutor(
+			builder.NewCachingBuildExecutor(local, fakeCAS{s: st}, fakeAC{s: st}, browserURL), flushFn)
+	} else {
+		executor = builder.NewCachingBuildExecutor(
+			builder.NewStorageFlushingBuildExecutor(local, flushFn),
+			fakeCAS{s: st}, fakeAC{s: st}, browserURL)
+	}
 
 	sawFailure, sawBatchFlush := false, false
 	var actions []string
@@ -689,3 +702,23 @@ func (area) Execute(raw json.RawMessage) (term string, info *hcommon.Info, err e
 }
 
 func main() { hcommon.Main(area{}) }
+
+var (
+	orderOnce    sync.Once
+	orderCaching bool
+)
+
+// cachingInsideFlushing reads the decorator order of cmd/bb_worker/main.go of
+// the tree under verification ($VERIF_REPO, default /repo).
+func cachingInsideFlushing() bool {
+	orderOnce.Do(func() {
+		repo := os.Getenv("VERIF_REPO")
+		if repo == "" {
+			repo = "/repo"
+		}
+		if x, _, err := uploadorder.Extract(repo); err == nil {
+			orderCaching = x.CachingInsideFlushing()
+		}
+	})
+	return orderCaching
+}
